@@ -1027,6 +1027,14 @@ int json_c_set_serialization_double_format(const char *double_format, int global
 {
 	if (global_or_thread == JSON_C_OPTION_GLOBAL)
 	{
+		/* Copy first: if that fails, the format in effect stays as it is. */
+		char *p = NULL;
+		if (double_format && (p = strdup(double_format)) == NULL)
+		{
+			_json_c_set_last_err("json_c_set_serialization_double_format: "
+			                     "out of memory\n");
+			return -1;
+		}
 #if defined(HAVE___THREAD)
 		if (tls_serialization_float_format)
 		{
@@ -1036,45 +1044,21 @@ int json_c_set_serialization_double_format(const char *double_format, int global
 #endif
 		if (global_serialization_float_format)
 			free(global_serialization_float_format);
-		if (double_format)
-		{
-			char *p = strdup(double_format);
-			if (p == NULL)
-			{
-				_json_c_set_last_err("json_c_set_serialization_double_format: "
-				                     "out of memory\n");
-				return -1;
-			}
-			global_serialization_float_format = p;
-		}
-		else
-		{
-			global_serialization_float_format = NULL;
-		}
+		global_serialization_float_format = p;
 	}
 	else if (global_or_thread == JSON_C_OPTION_THREAD)
 	{
 #if defined(HAVE___THREAD)
+		char *p = NULL;
+		if (double_format && (p = strdup(double_format)) == NULL)
+		{
+			_json_c_set_last_err("json_c_set_serialization_double_format: "
+			                     "out of memory\n");
+			return -1;
+		}
 		if (tls_serialization_float_format)
-		{
 			free(tls_serialization_float_format);
-			tls_serialization_float_format = NULL;
-		}
-		if (double_format)
-		{
-			char *p = strdup(double_format);
-			if (p == NULL)
-			{
-				_json_c_set_last_err("json_c_set_serialization_double_format: "
-				                     "out of memory\n");
-				return -1;
-			}
-			tls_serialization_float_format = p;
-		}
-		else
-		{
-			tls_serialization_float_format = NULL;
-		}
+		tls_serialization_float_format = p;
 #else
 		_json_c_set_last_err("json_c_set_serialization_double_format: not compiled "
 		                     "with __thread support\n");
